@@ -24,30 +24,36 @@ def histories(ctx, n):
             b, _ = sconnp.build_response(rng, i, head_method=(tr["method"] == b"HEAD"))
             rqs.append(a)
             rss.append(b)
-        # legal interleaving: response i only after request i was offered completely
+        # pieces of both streams; piece = (bytes, index of the LAST message it touches)
+        def pieces(msgs):
+            blob = b"".join(msgs)
+            ends, pos = [], 0
+            for m in msgs:
+                pos += len(m)
+                ends.append(pos)
+            res, start = [], 0
+            for piece in sconnp.cut(blob, sconnp.split_points(blob, rng, rng.choice(["random", "random", "whole"])) if len(blob) > 1 else [blob]):
+                stop = start + len(piece)
+                last = next(k for k, e in enumerate(ends) if stop <= e)
+                first = next(k for k, e in enumerate(ends) if start < e)
+                res.append((piece, first, last))
+                start = stop
+            return res
+        qp, sp = pieces(rqs), pieces(rss)
+        # legal interleaving: a response piece that touches response k may be offered only when request k has been offered
+        # completely, i.e. every request piece whose first message index is <= k is already out
         ops = ["O"]
-        sent_q, sent_s = 0, 0
-        pend_q = []      # chunks of the request being sent
-        while sent_s < N:
-            can_q = sent_q < N
-            can_s = sent_s < sent_q
-            if can_q and (not can_s or rng.random() < 0.55):
-                # offer the next request (possibly glued with the following ones) in random pieces
-                k = 1
-                while sent_q + k < N and rng.random() < 0.3:
-                    k += 1
-                blob = b"".join(rqs[sent_q:sent_q + k])
-                for piece in sconnp.cut(blob, sconnp.split_points(blob, rng, rng.choice(["whole", "random"]))):
-                    ops.append("Q" + piece.hex())
-                sent_q += k
+        qi, si = 0, 0
+        while qi < len(qp) or si < len(sp):
+            q_done_upto = qp[qi][1] - 1 if qi < len(qp) else N - 1         # requests 0..q_done_upto are completely offered
+            can_s = si < len(sp) and sp[si][2] <= q_done_upto
+            can_q = qi < len(qp)
+            if can_q and (not can_s or rng.random() < 0.5):
+                ops.append("Q" + qp[qi][0].hex()); qi += 1
+            elif can_s:
+                ops.append("S" + sp[si][0].hex()); si += 1
             else:
-                k = 1
-                while sent_s + k < sent_q and rng.random() < 0.3:
-                    k += 1
-                blob = b"".join(rss[sent_s:sent_s + k])
-                for piece in sconnp.cut(blob, sconnp.split_points(blob, rng, rng.choice(["whole", "random"]))):
-                    ops.append("S" + piece.hex())
-                sent_s += k
+                ops.append("Q" + qp[qi][0].hex()); qi += 1
         ops.append("C")
         out.append(sconnp.case(ops, cfg=cfg))
         meta.append(N)
@@ -95,7 +101,7 @@ def check(ctx):
                 hm = re.search(r"SH=\[([^\]]*)\]", d)
                 for h in (hm.group(1).split("/") if hm and hm.group(1) else []):
                     nme, val = h.split(":")[0], h.split(":")[1]
-                    if nme != "-" and bytes.fromhex(nme).lower() == b"x-id":
+                    if nme != "-" and bytes.fromhex(nme).lower() == b"resp-id":
                         try:
                             sid = int(bytes.fromhex(val).split(b",")[0]) if val != "-" else None      # a random X-.. header may collide with X-Id (merged with ", ")
                         except ValueError:
@@ -134,7 +140,7 @@ def check(ctx):
                                           "theorem": "Properties_C04.v", "note": "pairing and the pipelining indicator were right on the implementation for all %d histories" % len(cases)}, no_input=True)
     vf.note_distinct(ctx, keys)
     vf.sample(ctx, {"case": cases[0][:400], "N": meta[0]})
-    rule = ("%d connections with N = 1..6 id-tagged well-formed exchanges (request id in the URI, response id in an X-Id header), random legal interleavings "
+    rule = ("%d connections with N = 1..6 id-tagged well-formed exchanges (request id in the URI, response id in a Resp-Id header), random legal interleavings "
             "(response k only after request k was offered; requests may run ahead; runs of messages glued into one chunk; random cuts): #transactions = N, ids "
             "match per transaction, PIPELINED = event-based criterion. distinct_nontrivial = distinct (N, flag, length class)." % len(cases))
     return vf.standard_epilogue(ctx, pr, "make Props/Properties_C04.vo + ./check C04", rule,
